@@ -209,8 +209,8 @@ theorem roundtrip_beside_archive (w : World) (v1 v2 : Bool) (archive : Str) (src
     exact one_below_dirname_not_archive archive (catalogName s) h47 hp (hne s hs))
 
 /-- the hypotheses are satisfiable: an ordinary name is `NameOK` -/
-example : NameOK (str "A") (str "BAS") := ⟨by decide, by decide, by decide, by decide, by decide⟩
-example : NameOK (str "NOEXT") [] := ⟨by decide, by decide, by decide, by decide, by decide⟩
+example : NameOK (str "A") (str "BAS") := ⟨by decide, by decide, by decide, by decide, by decide, by decide⟩
+example : NameOK (str "NOEXT") [] := ⟨by decide, by decide, by decide, by decide, by decide, by decide⟩
 example : catalogName (str "dir.d/prog.bas,a") = str "PROG.BAS" := by decide
 
 
